@@ -17,8 +17,10 @@ package main
 //      What no longer rests on this check alone: a file that is ONE brace-free
 //      stretch of text with comments -- scanner model + parser model give the
 //      Spec's body_text (theorem C15_body_text_spec_partial; http://x clause:
-//      C15_http_not_comment).  Still by this check only: text between tags,
-//      {sp} {nil} {\n} {\r} {\t} {lb} {rb}, {literal} blocks, text after a tag.
+//      C15_http_not_comment), and comment-free text between the commands
+//      {sp} {nil} {\n} {\r} {\t} {lb} {rb} (C15_body_special_chars_spec).  Still by
+//      this check only: {literal} blocks, comments next to tags, other tags as
+//      neighbours of text.
 
 import (
 	"encoding/hex"
